@@ -564,7 +564,9 @@ class MarkdownNormalizer(Renderer):
                 return f"[{label}]"
             return f"[{link_text}][{label}]"
         title = f" {link_title}" if link_title is not None else ""
-        return f"[{link_text}]({element.dest}{title})"
+        # A destination that contains whitespace is only valid inside angle brackets.
+        dest = f"<{element.dest}>" if re.search(r"\s", element.dest) else element.dest
+        return f"[{link_text}]({dest}{title})"
 
     def render_auto_link(self, element: inline.AutoLink) -> str:
         return f"<{element.dest}>"
@@ -572,7 +574,8 @@ class MarkdownNormalizer(Renderer):
     def render_image(self, element: inline.Image) -> str:
         template = "![{}]({}{})"
         title = f" {_normalize_title_quotes(element.title)}" if element.title else ""
-        return template.format(self.render_children(element), element.dest, title)
+        dest = f"<{element.dest}>" if re.search(r"\s", element.dest) else element.dest
+        return template.format(self.render_children(element), dest, title)
 
     def render_literal(self, element: inline.Literal) -> str:
         """
